@@ -8,7 +8,11 @@ import (
 	"strings"
 	"testing"
 
+	"github.com/openGemini/openGemini/engine/executor"
+	"github.com/openGemini/openGemini/engine/hybridqp"
 	"github.com/openGemini/openGemini/engine/index/tsi"
+	"github.com/openGemini/openGemini/lib/util/lifted/influx/influxql"
+	"github.com/openGemini/openGemini/lib/util/lifted/influx/query"
 	"github.com/openGemini/openGemini/verifsim/core"
 
 	"github.com/openGemini/openGemini/lib/util/lifted/vm/protoparser/influx"
@@ -112,4 +116,55 @@ func TestVerifDebugFlaky(t *testing.T) {
 		}
 	}
 	fmt.Println("no failure in 600 attempts")
+}
+
+func sPlanString(n hybridqp.QueryNode, depth int) string {
+	if n == nil {
+		return "<nil>"
+	}
+	s := strings.Repeat("  ", depth) + fmt.Sprintf("%T ops=%v rt=%v\n", n, n.RowExprOptions(), n.RowDataType().Fields())
+	for _, c := range n.Children() {
+		s += sPlanString(c, depth+1)
+	}
+	return s
+}
+
+func TestVerifDebugPlan(t *testing.T) {
+	if os.Getenv("VERIF_DEBUG") == "" {
+		t.Skip()
+	}
+	sSetup()
+	for _, fc := range []bool{false, true} {
+		executor.EnableFileCursor(fc)
+		for _, qt := range []string{
+			"SELECT count(fi) FROM mst0_0000 GROUP BY host, region",
+			"SELECT /*+ Exact_Statistic_Query */ count(fi) FROM mst0_0000 GROUP BY host, region",
+			"SELECT sum(ff) FROM mst0_0000 GROUP BY time(5s), host, region",
+			"SELECT first(fs) FROM mst0_0000 WHERE fi > 5 GROUP BY host",
+		} {
+			shardGroup := &mockShardGroup{Fields: sFieldTypes, Dimensions: sTagKeys}
+			stmt := MustParseSelectStatement(qt)
+			stmt, _ = stmt.RewriteFields(shardGroup, true, false)
+			stmt.OmitTime = true
+			RemoveTimeCondition(stmt)
+			opt, _ := query.NewProcessorOptionsStmt(stmt, query.SelectOptions{ChunkSize: 1024})
+			opt.Name = "mst0_0000"
+			opt.Sources = influxql.Sources{&influxql.Measurement{Database: sDB, RetentionPolicy: sRP, Name: "mst0_0000"}}
+			if strings.Contains(qt, "Exact") {
+				opt.HintType = hybridqp.ExactStatisticQuery
+			}
+			schema := executor.NewQuerySchema(stmt.Fields, stmt.ColumnNames(), &opt, nil)
+			b := executor.NewLogicalPlanBuilderImpl(schema)
+			sp, err := b.CreateSeriesPlan()
+			mp, err2 := b.CreateMeasurementPlan(sp)
+			b.Push(mp)
+			b.Aggregate()
+			plan, err3 := b.Build()
+			fmt.Println("QUERY fc=", fc, qt, err, err2, err3, "matchPreAgg", schema.MatchPreAgg())
+			planner := executor.BuildHeuristicPlanner()
+			planner.SetRoot(plan)
+			best := planner.FindBestExp()
+			fmt.Print(sPlanString(best, 1))
+		}
+	}
 }
